@@ -1262,13 +1262,24 @@ def _hygiene(spec, item):
     own -= set(['ghost', 'mut'])
     code = set(t.text for t in item.toks if t.kind == 'ident')
     hit = sorted(own & code)
-    if not hit:
+    # the other direction: a local of the code (`let label_text = ..`) must not shadow a spec function the overlay calls by
+    # that name: the overlay's calls `name(` are written as the item path `crate::name(`, which a local cannot shadow
+    locals_ = set(nm for (nm, _init) in _collect_lets(item.toks))
+    called = set(re.findall(r'(?<![\w:.$])([a-z_][A-Za-z0-9_]*)\s*\(', alltext))
+    shadowed = sorted((locals_ & called) - own)
+    if not hit and not shadowed:
         return spec
     mapping = dict((n, n + '__g') for n in hit)
+
+    def fix(text):
+        text = _rename_outside_placeholders(text, mapping) if mapping else text
+        for nm in shadowed:
+            text = re.sub(r'(?<![\w:.$])%s(\s*\()' % re.escape(nm), r'crate::%s\1' % nm, text)
+        return text
     c = FnSpec(spec.file, spec.impl_re, spec.name)
     c.tags, c.ctags, c.ret, c.lineno, c.optional, c.params = spec.tags, spec.ctags, spec.ret, spec.lineno, spec.optional, spec.params
-    c.sections = dict((k, _rename_outside_placeholders(v, mapping)) for k, v in spec.sections.items())
-    c.anchors = [(w, f, _rename_outside_placeholders(t, mapping), no) for (w, f, t, no) in spec.anchors]
+    c.sections = dict((k, fix(v)) for k, v in spec.sections.items())
+    c.anchors = [(w, f, fix(t), no) for (w, f, t, no) in spec.anchors]
     c.foreign = getattr(spec, 'foreign', False)
     c.orig = getattr(spec, 'orig', spec)
     return c
